@@ -124,6 +124,7 @@ func vh_C10_L3_cwnd_laws() {
 			vassert(a.tlrActive, "tail-loss recovery is active")
 		}
 		chunks[0].missIndicator = 2
+		chunks[0].nSent = uint32(1 + vPick(2)) // sent once, or already retransmitted once (by RACK, say) and lost again: a loss signal all the same
 		sack := &chunkSelectiveAck{cumulativeTSNAck: base, advertisedReceiverWindowCredit: 1 << 20, gapAckBlocks: []gapAckBlock{{2, 2}}}
 		vassert(vDeliver(a, sack) == nil, "SACK ok")
 		want := cwnd / 2
